@@ -138,6 +138,106 @@ def match_known(pid, ob, known):
   return None
 
 
+_VOCAB = None
+
+
+def _vocab():
+  global _VOCAB
+  if _VOCAB is None:
+    p = os.path.join(os.path.dirname(os.path.abspath(__file__)), 'canon_vocab.json')
+    _VOCAB = set(json.load(open(p))) if os.path.exists(p) else None
+    if _VOCAB is not None:
+      _VOCAB |= _modelled_words()
+  return _VOCAB
+
+
+def _modelled_words():
+  """Identifiers the engine itself names in its rules and rewrites (string constants of its sources): constructs the
+  analysis has a model for even though the reference tree does not use them."""
+  import ast, re
+  out = set()
+  base = os.path.dirname(os.path.abspath(__file__))
+  for dp, dn, fn in os.walk(base):
+    for f in fn:
+      if f.endswith('.py'):
+        try:
+          tree = ast.parse(open(os.path.join(dp, f)).read())
+        except SyntaxError:
+          continue
+        for n in ast.walk(tree):
+          if isinstance(n, ast.Constant) and isinstance(n.value, str) and len(n.value) < 60:
+            for w in re.findall(r'[A-Za-z_][A-Za-z_0-9]*', n.value):
+              out.add(w)
+  return out
+
+
+def unfamiliar_words(ctx, f, seen=None):
+  """Called identifiers (and dunder attributes used as values) in the normal form of `f` - and of the new helpers it
+  calls - that the reference tree never uses and the package does not define."""
+  import ast
+  vocab = _vocab()
+  if vocab is None:
+    return []
+  seen = seen if seen is not None else set()
+  if f.qual in seen:
+    return []
+  seen.add(f.qual)
+  defined = {q.rsplit('.', 1)[-1] for q in ctx.ix.by_qual}
+  local = set(f.params)
+  for n in ast.walk(f.node):
+    if isinstance(n, ast.Name) and isinstance(n.ctx, ast.Store):
+      local.add(n.id)
+    elif isinstance(n, ast.arg):
+      local.add(n.arg)
+    elif isinstance(n, (ast.FunctionDef, ast.ClassDef)):
+      local.add(n.name)
+  out = []
+  imports = f.module.imports
+  for n in ast.walk(f.node):
+    w = None
+    # library callables only: `mod.name(...)` through an imported module, or a from-imported name; methods of
+    # builtin types and new package helpers are ordinary code the rules read structurally
+    if isinstance(n, ast.Call):
+      if isinstance(n.func, ast.Name) and (n.func.id in imports or n.func.id in defined):
+        w = n.func.id
+      elif isinstance(n.func, ast.Attribute) and isinstance(n.func.value, ast.Name) and \
+          imports.get(n.func.value.id, ('',))[0] == 'module' and n.func.value.id not in local:
+        w = n.func.attr
+      elif isinstance(n.func, ast.Attribute) and n.func.attr in defined and n.func.attr not in vocab:
+        w = n.func.attr
+    if w is None or w in vocab or w in local:
+      continue
+    if w in defined:
+      g = [x for q, x in ctx.ix.by_qual.items() if q.rsplit('.', 1)[-1] == w and hasattr(x, 'params')]
+      for x in g:
+        out.extend(unfamiliar_words(ctx, x, seen))
+      continue
+    if w not in out:
+      out.append(w)
+  return out
+
+
+def unfamiliar_demotion(ctx):
+  """Failed obligations whose construct is written with vocabulary no rule has seen: reported as undecided (exit 2)
+  rather than as a violation.  Obligations in familiar code are untouched."""
+  out = []
+  cache = {}
+  for o in list(ctx.obs):
+    if o.ok or '::' not in o.construct:
+      continue
+    fl, q = o.construct.split('::', 1)
+    q = q.split('[')[0].split(' ')[0]
+    hit = [f for f in ctx.ix.all_funcs() if f.file == fl and (f.qual.split('.', 1)[1] if '.' in f.qual else f.qual) == q]
+    if not hit:
+      continue
+    f = hit[0]
+    if f.qual not in cache:
+      cache[f.qual] = unfamiliar_words(ctx, f)
+    if cache[f.qual]:
+      out.append((o, cache[f.qual]))
+  return out
+
+
 def run_property(pid, tier='quick', seed=0, repo=None, write=True, quiet=False,
                  evidence_dir=None):
   """Runs all rules of a property. Returns (exit_code, obligations)."""
@@ -192,6 +292,18 @@ def run_property(pid, tier='quick', seed=0, repo=None, write=True, quiet=False,
     say('ANALYSIS-ERROR property=%s tool traceback:\n%s' % (pid, traceback.format_exc()))
     return 2, [], out
 
+  demoted = unfamiliar_demotion(ctx)
+  if demoted:
+    for o, words in demoted:
+      ctx.obs.remove(o)
+      msg = ('%s at %s could not be decided: %s uses %s, which no rule models (absent from the reference tree\'s vocabulary); '
+             'the rule read: %s' % (o.rule, o.loc, o.construct, ', '.join('`%s`' % w for w in words), o.what))
+      analysis_errors.append(msg)
+    if not any(not o.ok for o in ctx.obs):
+      say('ANALYSIS-ERROR property=%s %s' % (pid, '; '.join(analysis_errors)))
+      return 2, [], out
+    for o, words in demoted:
+      ctx.note('not decided (unfamiliar vocabulary %s): %s %s' % (words, o.rule, o.construct))
   known = load_known()
   violations = []
   matched = []
